@@ -147,6 +147,9 @@ func explore(c *runCfg) (*loaded, map[string][]byte, []*sym.HarnessResult, error
 		hs = f
 	}
 	sh := sym.NewShared(l.prog)
+	if c.maxPaths == 0 && c.tier == "thorough" {
+		c.maxPaths = 600000 // quick keeps the engine default of 50000 paths per harness
+	}
 	opt := sym.Options{Solver: c.solver, TimeoutMs: c.timeoutMs, MaxPaths: c.maxPaths, WallLimit: c.wall, Debug: c.debug, PathLimit: c.pathLimit}
 	var progress func(*sym.HarnessResult)
 	if c.debug {
@@ -159,6 +162,13 @@ func explore(c *runCfg) (*loaded, map[string][]byte, []*sym.HarnessResult, error
 }
 
 func runOnly(c *runCfg) int {
+	if c.prop != "" {
+		os.MkdirAll(filepath.Join(c.verif, "work", c.prop), 0o755)
+		if err := generate(c); err != nil {
+			fmt.Fprintln(os.Stderr, "symgo: generator failed:", err)
+			return 2
+		}
+	}
 	_, _, results, err := explore(c)
 	if err != nil {
 		fmt.Fprintln(os.Stderr, "symgo:", err)
